@@ -38,6 +38,15 @@ def gen_cases(rng, tier):
         stop_at = rng.randrange(nm) if i % 2 == 0 else -1
         cases.append({"concurrency": conc, "targets": targets, "batch_store": (i % 3 != 2), "backend": "sqlite" if i % 5 == 4 else "memory",
                       "retry_max": mx, "base_ns": 10 ** 9, "cap_ns": 8 * 10 ** 9, "stop_at": stop_at, "messages": msgs})
+    # messages that left the active set (dead-lettered / canceled) while a thousand others passed through, and were then brought back by
+    # the operator: a new cycle starts - they are sent and settled like any other (memory and SQLite)
+    for backend in ("memory", "sqlite"):
+        for conc in (1, 2):
+            msgs = [{"id": "d%02d" % m, "target": 0, "pre": 0, "kind": k, "code": cd, "detour": dt}
+                    for m, (k, cd, dt) in enumerate([("status", 200, "dead-requeue"), ("status", 503, "cancel-resume"), ("status", 404, "cancel-requeue"),
+                                                     ("status", 200, ""), ("status", 200, "dead-requeue")])]
+            cases.append({"concurrency": conc, "targets": 1, "batch_store": True, "backend": backend, "retry_max": 2, "base_ns": 10 ** 9, "cap_ns": 8 * 10 ** 9,
+                          "stop_at": -1, "warmup": 1300 if backend == "memory" else 300, "messages": msgs, "_fixed": True})
     # fixed shapes: Drain during the first delivery of a full micro-batch of every settlement kind
     for bs in (True, False):
         for (kind, code, pre) in (("status", 200, 0), ("status", 503, 0), ("status", 503, 5), ("status", 404, 0), ("policy", 0, 0)):
@@ -149,6 +158,16 @@ def judge(case, out, report, stats):
             else:
                 if k != "nack" or c.get("delay_ns", 0) != 0:
                     report("loop-settlement:not-reached", "message %s was never sent but was settled with %s instead of being handed back" % (it["id"], c), detail)
+    # a run to quiescence: every message of the route that the route's targets cover has been leased (and hence settled) at least once
+    if case["stop_at"] < 0:
+        leased_ids = {it["id"] for items in batches for it in items}
+        for m in case["messages"]:
+            if m["target"] >= 0 and m["id"] not in leased_ids:
+                f = next((x for x in out["final"] if x["id"] == m["id"]), None)
+                report("loop-settlement:never-dequeued:%s" % (m.get("detour") or "plain"),
+                       "message %s (%s) is ready on the route but the dispatcher was never handed it: final state %s - it is neither delivered nor dead-lettered" %
+                       (m["id"], m.get("detour") or "enqueued", f),
+                       {"kind": "request", "case": {k: v for k, v in case.items() if not k.startswith("_")}, "final": out["final"], "all_calls": out["calls"][:40]})
     # nothing may stay leased once the dispatcher has drained
     for f in out["final"]:
         if f["state"] == "leased" and out.get("drained"):
